@@ -106,7 +106,7 @@ def to_src(v, model, c: Ctx) -> str:
     if reg is not None:
         if reg[0] == "new":
             _, ref, fields = reg
-            inner = ", ".join(f"{f}={to_src(getattr(v, f), model, c)}" for f in fields)
+            inner = ", ".join(f"{f}={to_src(v0, model, c)}" for f, v0 in fields.items())
             return f"NEW({ref!r}, {inner})"
         _, ref, args, kwargs = reg
         parts = [to_src(a, model, c) for a in args] + [f"{k}={to_src(a, model, c)}" for k, a in kwargs.items()]
@@ -202,6 +202,22 @@ class Recorder:
             self.by_backend["trivial"] += 1
             self.instances.append(inst)
             return
+        # first attempt: only the quantifier-free part of the path condition (fewer assumptions:
+        # `unsat` there is `unsat` everywhere) -- keeps cheap obligations cheap on quantifier-heavy paths
+        if any(c.pc_quant) and not sym.has_quant(t):
+            s0 = z3.Solver()
+            s0.set("timeout", 1500)
+            for a_, q_ in zip(c.pc, c.pc_quant):
+                if not q_:
+                    s0.add(a_)
+            s0.add(z3.Not(t))
+            c.n_solver_calls += 1
+            if s0.check() == z3.unsat:
+                inst.update(status="discharged", backend="z3", time=round(time.time() - t0, 4))
+                self.by_backend["z3"] += 1
+                self.solver_time += time.time() - t0
+                self.instances.append(inst)
+                return
         s = c.solver
         s.push()
         s.set("timeout", Z3_QUICK_MS)
@@ -302,46 +318,29 @@ def _bind(raw_fn, args, kwargs):
     return dict(ba.arguments)
 
 
+def havoc_location(locn):
+    """(obj, attr) -> fresh value of the same kind; (obj, attr, shape) -> fresh value of that shape;
+    a mutable proxy -> havocked in place"""
+    from .loops import fresh_like
+
+    if isinstance(locn, tuple):
+        if len(locn) == 3:
+            obj, attr, shape = locn
+            setattr(obj, attr, make_value(shape, attr))
+        else:
+            obj, attr = locn
+            setattr(obj, attr, fresh_like(getattr(obj, attr), attr))
+    else:
+        locn.havoc_inplace()
+
+
 def make_stub(C: Contract, raw_fn):
     def stub(*args, **kwargs):
         c = sym.ctx()
         USED_STUBS.add(C.fn)
         bound = _bind(raw_fn, args, kwargs)
         ghosts = C.ghost_names(raw_fn)
-        ghost_reqs = []
-        for i, r in enumerate(C.requires):
-            if ghosts and set(inspect.signature(r).parameters) & ghosts:
-                ghost_reqs.append(r)
-                continue
-            try:
-                v = call_by_name(r, bound)
-            except VcAbort:
-                raise
-            except Exception as e:  # pylint: disable=broad-except
-                v = False
-                c.notes.append(f"requires of {C.fn} not evaluable: {e!r}")
-            c.check(v, f"call-pre:{C.fn}#{i}", kind="call-pre", callee=C.fn)
-            c.assume(v)
-        env = dict(bound)
-        if C.old is not None:
-            env["old"] = call_by_name(C.old, bound)
-        for exc_t, when in C.raises:
-            if bool(call_by_name(when, env)):
-                raise exc_t(f"[pyvc stub of {C.fn}]")
-        if C.modifies is not None:
-            from .loops import fresh_like
-
-            for locn in call_by_name(C.modifies, env):
-                if isinstance(locn, tuple):
-                    obj, attr = locn
-                    setattr(obj, attr, fresh_like(getattr(obj, attr), attr))
-                else:
-                    locn.havoc_inplace()
-        if C.returns is None:
-            raise Unsupported(f"contract of {C.fn} has no `returns` shape; cannot be used as a stub")
-        shp = call_by_name(C.returns, env)
-        res = make_value(shp, f"ret.{C.fn.split(':')[-1]}")
-        env["result"] = res
+        # ghost arguments supplied by the caller's contract for this call site
         gvals = None
         if ghosts:
             caller = c.ghost.get("caller_contract")
@@ -351,12 +350,39 @@ def make_stub(C: Contract, raw_fn):
                 idx = cnt.get(C.fn, 0)
                 cnt[C.fn] = idx + 1
                 gvals = call_by_name(binder, dict(c.ghost.get("caller_args", {}), call_index=idx, callee_args=bound))
-                genv = dict(bound, **gvals)
-                for i, r in enumerate(ghost_reqs):
-                    v = call_by_name(r, genv)
-                    c.check(v, f"call-pre-ghost:{C.fn}#{i}", kind="call-pre", callee=C.fn)
-                    c.assume(v)
-                env.update(gvals)
+        env = dict(bound)
+        if gvals is not None:
+            env.update(gvals)
+        ghost_reqs = []
+        for i, r in enumerate(C.requires):
+            uses_ghost = bool(ghosts and set(inspect.signature(r).parameters) & ghosts)
+            if uses_ghost and gvals is None:
+                ghost_reqs.append(r)
+                continue
+            try:
+                v = call_by_name(r, env)
+            except VcAbort:
+                raise
+            except Exception as e:  # pylint: disable=broad-except
+                v = False
+                c.notes.append(f"requires of {C.fn} not evaluable: {e!r}")
+            c.check(v, f"call-pre:{C.fn}#{i}", kind="call-pre", callee=C.fn)
+            c.assume(v)
+        if C.old is not None:
+            env["old"] = call_by_name(C.old, env)
+        for exc_t, when in C.raises:
+            if bool(call_by_name(when, env)):
+                raise exc_t(f"[pyvc stub of {C.fn}]")
+        if C.modifies is not None:
+            from .loops import fresh_like
+
+            for locn in call_by_name(C.modifies, env):
+                havoc_location(locn)
+        if C.returns is None:
+            raise Unsupported(f"contract of {C.fn} has no `returns` shape; cannot be used as a stub")
+        shp = call_by_name(C.returns, env)
+        res = make_value(shp, f"ret.{C.fn.split(':')[-1]}")
+        env["result"] = res
         for label, e in C.labelled_ensures():
             used = set(inspect.signature(e).parameters) & ghosts
             if not used or gvals is not None:
@@ -518,7 +544,8 @@ def explore_case(C: Contract, case_idx: int, case: Dict[str, Shape], max_paths=N
                     if isinstance(s_, Derived):
                         args[k] = call_by_name(s_.fn, args)
                 args = {k: args[k] for k in case}
-                state["args"] = args
+                # witnesses describe the pre-state: keep copies of top-level mutable proxies
+                state["args"] = {k: (v.copy() if hasattr(v, "havoc_inplace") else v) for k, v in args.items()}
                 c.ghost["caller_contract"] = C
                 c.ghost["caller_args"] = args
                 for r in C.requires:
